@@ -36,6 +36,15 @@ Theorem int_compare_kind_independent : forall k1 k2 k1' k2' z1 z2 op,
   rel_op op (VInt k1 z1) (VInt k2 z2) = rel_op op (VInt k1' z1) (VInt k2' z2).
 Proof. exact RelProps.int_compare_kind_independent. Qed.
 Print Assumptions int_compare_kind_independent.
+Theorem float_compare_kind_independent : forall f1 f2 f1' f2' b1 b2 op,
+  rel_op op (VFloat f1 b1) (VFloat f2 b2) = rel_op op (VFloat f1' b1) (VFloat f2' b2).
+Proof. exact RelProps.float_compare_kind_independent. Qed.
+Theorem mixed_compare_kind_independent : forall k k' f f' z b op,
+  rel_op op (VInt k z) (VFloat f b) = rel_op op (VInt k' z) (VFloat f' b) /\
+  rel_op op (VFloat f b) (VInt k z) = rel_op op (VFloat f' b) (VInt k' z).
+Proof. exact RelProps.mixed_compare_kind_independent. Qed.
+Print Assumptions float_compare_kind_independent.
+Print Assumptions mixed_compare_kind_independent.
 Theorem int_eq_iff : forall k1 k2 z1 z2, (- two63 <= z1 < two63)%Z -> (- two63 <= z2 < two63)%Z ->
   rel_op BEq (VInt k1 z1) (VInt k2 z2) = Ok (VBool (Z.eqb z1 z2)).
 Proof. exact RelProps.int_eq_iff. Qed.
